@@ -403,6 +403,9 @@ def build_pool(cs, ctx):
             pool.add("vec", view[:, None], guards,
                      f"vec[{kind},{dt},{lay},column]",
                      {"vecN", kind, dt, lay, "column"})
+    # zero-dimensional arrays (what numpy reductions and x[i, ...] return)
+    for j, z in enumerate((np.array(16), np.array(2.5), np.array(0.25))):
+        pool.add("vec", z, None, f"vec[0-d {z.dtype}]", {"zero_d"})
     x = series_values("unif")
     view, guards = pool.carve(x, "contig", "vunif")
     pool.add("vec", view, guards, "vec[unif,f8,contig]",
@@ -470,8 +473,8 @@ def build_pool(cs, ctx):
     # ---- pandas
     idx_daily = pd.date_range("2001-01-01", periods=N, freq="D")
     for j in range(cs.between("nser", 2, 4)):
-        src = pool.by_kind["vec"][cs.draw(f"ser{j}.src",
-                                          len(pool.by_kind["vec"]))]
+        full = [o for o in pool.by_kind["vec"] if "vecN" in o.tags]
+        src = full[cs.draw(f"ser{j}.src", len(full))]
         ik = cs.choice(f"ser{j}.idx", ["range", "daily", "daily_tz", "str"])
         if ik == "range":
             index = None
@@ -811,6 +814,15 @@ def catalogue():
             (lambda meth: lambda a, o: getattr(set_tr(a.tr, o["u"]), meth)(
                 a.x))(meth),
             lambda cs: {"u": uu(cs, "tr")})
+    # ... and on zero-dimensional arrays in particular
+    Z = ("x", "vec", {"zero_d"})
+    for meth in ("forward", "backward", "jacobian"):
+        add("transform." + meth + "(0-d)", [TR, Z],
+            (lambda meth: lambda a, o: getattr(set_tr(a.tr, o["u"]), meth)(
+                a.x))(meth),
+            lambda cs: {"u": uu(cs, "tr")}, weight=1)
+    add("dutils.cast(0-d)", [Z, ("y", "vec", None)],
+        lambda a, o: dutils.cast(a.x, a.y), weight=1)
     add("transform.params_sample", [TR],
         lambda a, o: set_tr(a.tr, o["u"]).params_sample(o["n"]),
         lambda cs: {"u": uu(cs, "tr"), "n": cs.between("n", 1, 20)})
